@@ -27,6 +27,16 @@ func init() {
 		"(time.Duration).String": extDurationString,
 		"time.runtimeNano":       func(fr *frame, a []value) value { return int64(0) },
 		"time.Sleep":             extNop,
+		// (package time's initialiser is not run, so its unit table is
+		// empty: durations are parsed by the real function on concrete text)
+		"time.ParseDuration": func(fr *frame, a []value) value {
+			txt := fr.i.path.concreteString(a[0], "time.ParseDuration of a symbolic string")
+			d, err := time.ParseDuration(txt)
+			if err != nil {
+				return tuple{int64(0), fr.mkError(err.Error())}
+			}
+			return tuple{int64(d), iface{}}
+		},
 	} {
 		externals[k] = v
 	}
